@@ -4,7 +4,7 @@ import PaneModel.Generated.Facts
 # C16 — Dataclass value semantics: equality, order, hash, frozen, copy
 
 Full statement (properties.jsonl): equality compares the class (ignoring generic parameters) and
-the compare-fields pairwise; ordering is the lexicographic order of the compare-fields, consistent
+the compare-fields pairwise; ordering uses the SAME class test (ignoring generic parameters) and is the lexicographic order of the compare-fields, consistent
 with equality (for same-class instances with totally ordered fields exactly one of <, ==, > holds);
 hashing follows the standard-library dataclass rule table for (eq, frozen, unsafe_hash, explicit
 __hash__) and equal instances hash equal.  Frozen instances reject attribute assignment and
@@ -44,6 +44,80 @@ theorem C16_options_accepted :
            "in_rename", "out_rename", "allow_extra", "custom"],
       (Facts.initSubclassKw.getD []).contains k = true := by decide
 
+/-! ## Ordering uses the same class test as equality (`_unsubscripted(self.__class__)`) -/
+
+variable {α : Type}
+
+/-- The ordering methods ignore the generic parameters: for two instances of the same UN-SUBSCRIPTED
+class (`a.origin = b.origin`, whatever their exact classes `a.exact`, `b.exact`: `G[int](1)` vs
+`G[Any](2)`), `_pane_ord` is an integer in `{-1, 0, 1}` and none of `<`, `<=`, `>`, `>=` is
+`NotImplemented`: each is the corresponding sign test of that integer. -/
+theorem C16_order_ignores_parameters (fs : List FieldFlags) (eqv gt : α → α → Bool) (a b : Inst α)
+    (h : a.origin = b.origin) :
+    ∃ o : Int, (o = -1 ∨ o = 0 ∨ o = 1) ∧
+      paneOrd fs eqv gt a b = some o ∧
+      lt fs eqv gt a b = some (decide (o < 0)) ∧
+      le fs eqv gt a b = some (decide (o ≤ 0)) ∧
+      gt' fs eqv gt a b = some (decide (o > 0)) ∧
+      ge fs eqv gt a b = some (decide (o ≥ 0)) := by
+  refine ⟨ordLoop eqv gt (zip3 fs a.vals b.vals), ordLoop_range eqv gt _, paneOrd_same fs eqv gt h, ?_, ?_, ?_, ?_⟩ <;>
+    simp [lt, le, gt', ge, paneOrd_same fs eqv gt h]
+
+/-- … and the exact class objects play no role at all in the result: replacing them by any others
+leaves `_pane_ord` (hence all four comparisons) unchanged. -/
+theorem C16_order_exact_irrelevant (fs : List FieldFlags) (eqv gt : α → α → Bool) (a b : Inst α)
+    (e₁ e₂ : Nat) :
+    paneOrd fs eqv gt { a with exact := e₁ } { b with exact := e₂ } = paneOrd fs eqv gt a b ∧
+    lt fs eqv gt { a with exact := e₁ } { b with exact := e₂ } = lt fs eqv gt a b ∧
+    le fs eqv gt { a with exact := e₁ } { b with exact := e₂ } = le fs eqv gt a b ∧
+    gt' fs eqv gt { a with exact := e₁ } { b with exact := e₂ } = gt' fs eqv gt a b ∧
+    ge fs eqv gt { a with exact := e₁ } { b with exact := e₂ } = ge fs eqv gt a b :=
+  ⟨rfl, rfl, rfl, rfl, rfl⟩
+
+/-- Consistency of `<=` / `>=` with `==`: equal instances are `<=` and `>=` each other.  Stated for
+`a.origin = b.origin` (any exact classes); that hypothesis is in fact implied by
+`instEq … a b = true` (`C16_eq_def`), see `C16_order_eq_consistent_le_ge'`.  (The `_pane_ord = 0 ↔ ==`
+form is `C16_order_eq_consistent` in `Lemmas/OrderProofs.lean`.) -/
+theorem C16_order_eq_consistent_le_ge (fs : List FieldFlags) (eqv gt : α → α → Bool) (a b : Inst α)
+    (h : a.origin = b.origin) :
+    instEq fs eqv a b = true → le fs eqv gt a b = some true ∧ ge fs eqv gt a b = some true := by
+  intro he
+  have h0 := (C16_order_eq_consistent fs eqv gt a b h).2 he
+  simp [le, ge, h0]
+
+/-- the same without the class hypothesis: `a == b` alone makes `a <= b` and `a >= b` `True`
+(in particular not `NotImplemented`), and `a < b`, `a > b` `False` -/
+theorem C16_order_eq_consistent_le_ge' (fs : List FieldFlags) (eqv gt : α → α → Bool) (a b : Inst α) :
+    instEq fs eqv a b = true →
+      le fs eqv gt a b = some true ∧ ge fs eqv gt a b = some true ∧
+      lt fs eqv gt a b = some false ∧ gt' fs eqv gt a b = some false := by
+  intro he
+  have h : a.origin = b.origin := ((C16_eq_def fs eqv a b).1 he).1
+  have h0 := (C16_order_eq_consistent fs eqv gt a b h).2 he
+  simp [le, ge, lt, gt', h0]
+
+namespace Examples
+
+-- non-vacuity: `p123 : C`, `g123 : C[int]` (equal `origin`, different `exact`), `p124 : C`
+example : p123.origin = g123.origin ∧ p123.exact ≠ g123.exact := by decide
+example : g123.origin = p124.origin ∧ g123.exact ≠ p124.exact := by decide
+example : lt fs ieq igt g123 p124 = some true ∧ le fs ieq igt g123 p124 = some true ∧
+    gt' fs ieq igt g123 p124 = some false ∧ ge fs ieq igt g123 p124 = some false := by decide
+example : ∃ o : Int, (o = -1 ∨ o = 0 ∨ o = 1) ∧ paneOrd fs ieq igt g123 p124 = some o ∧
+    lt fs ieq igt g123 p124 = some (decide (o < 0)) ∧ le fs ieq igt g123 p124 = some (decide (o ≤ 0)) ∧
+    gt' fs ieq igt g123 p124 = some (decide (o > 0)) ∧ ge fs ieq igt g123 p124 = some (decide (o ≥ 0)) :=
+  C16_order_ignores_parameters fs ieq igt g123 p124 rfl
+example : le fs ieq igt p123 g123 = some true ∧ ge fs ieq igt p123 g123 = some true :=
+  C16_order_eq_consistent_le_ge fs ieq igt p123 g123 rfl (by decide)
+-- trichotomy across `C[int]` / `C`
+example : ExactlyOne (lt fs ieq igt g123 p124 = some true) (instEq fs ieq g123 p124 = true)
+    (lt fs ieq igt p124 g123 = some true) :=
+  C16_trichotomy_swap fs int_strictTotal g123 p124 rfl
+-- unrelated classes stay `NotImplemented`
+example : lt fs ieq igt p123 q123 = none ∧ ge fs ieq igt p123 q123 = none := by decide
+
+end Examples
+
 #print axioms C16_facts_pane_table
 #print axioms C16_facts_stdlib_table
 #print axioms C16_hash_table_source
@@ -59,6 +133,11 @@ theorem C16_options_accepted :
 #print axioms C16_trichotomy
 #print axioms C16_trichotomy_swap
 #print axioms C16_order_eq_consistent
+#print axioms C16_notImplemented_iff
+#print axioms C16_order_ignores_parameters
+#print axioms C16_order_exact_irrelevant
+#print axioms C16_order_eq_consistent_le_ge
+#print axioms C16_order_eq_consistent_le_ge'
 #print axioms C16_eq_hash
 #print axioms C16_repr
 
